@@ -44,6 +44,8 @@ ConfState(ob) ==
        LET m == msgs'[q.id] IN
        /\ ConfD("queue.msg", m.kind = q.kind /\ m.sigs = q.sigs /\ m.retries = q.retries /\ (m.pad # 0) = q.pad /\ m.errd = q.errd,
                 <<q.id, m.kind, q.kind, m.sigs, q.sigs, m.retries, q.retries, m.pad, q.pad>>)
+       /\ \A g1, g2 \in SeqSet(q.ev) : (g1.v \in DOMAIN m.ev /\ g2.v \in DOMAIN m.ev) =>
+            ConfD("grouping", (m.ev[g1.v] = m.ev[g2.v]) = (g1.eid = g2.eid), <<q.id, g1.v, g2.v>>)
        /\ ConfD("queue.voters", DOMAIN m.ev = {g.v : g \in SeqSet(q.ev)}, <<q.id, DOMAIN m.ev>>)
        /\ \A g \in SeqSet(q.ev) : (g.v \in DOMAIN m.ev /\ g.t = "tx" /\ m.ev[g.v].t = "tx") =>
             ConfD("exactness", ExactFor(q.id, m, m.ev[g.v].tx[1], IF live' = 0 THEN 1 ELSE 2) = ExactObs(q, g), <<q.id, g.v, m.ev[g.v].tx, q.enc, g.did>>)
@@ -86,7 +88,7 @@ TrSign == IsEvent("Sign") /\ LET e == Trace[l]  a == e.args IN
   /\ ConfState(e.obs)
 
 TrEvidence == IsEvent("Evidence") /\ LET e == Trace[l]  a == e.args IN
-  /\ Evidence(a.v, a.m, a.t, a.of, a.k, a.corr, a.st, a.n) /\ o' = e.obs /\ KeepMon
+  /\ Evidence(a.v, a.m, a.t, a.of, a.k, a.corr, a.st, a.n, a.rg) /\ o' = e.obs /\ KeepMon
   /\ Quiet(e, FALSE, FALSE)
   /\ Conf("Evidence.res", e.res = res')
   /\ ConfState(e.obs)
